@@ -272,17 +272,18 @@ CHECKS = {
         "manifest": {
             "technique": "property-based differential testing against real SQLite: for every index / index-backed or WITHOUT ROWID primary key of generated databases, keys derived from stored entries (every prefix length, neighbours: +-1, int<->real, case swapped, trailing blank/tab, other classes, NULL, random values) are searched with IndexedSelectEq / PKSelect and compared with SQLite's SELECT ... WHERE +(expr) COLLATE c IS ? ... (unary plus: no affinity, no index use) in index order",
             "level_text": "Generated (database, index, key) triples; oracle = SQLite's raw storage-class comparison under the index column's collation; exact sequence equality (no row missing, none extra, index order). Sampled.",
-            "level_note": "Collation and direction of the key columns are taken from SQLite's index_xinfo, not from sqlittle; text parameters are bound through +CAST(? AS TEXT) so that no affinity is applied.",
+            "level_note": "Collation and direction of the key columns are taken from SQLite's index_xinfo, not from sqlittle; text parameters are bound through +CAST(? AS TEXT) so that no affinity is applied. A second part runs equality searches on images from the independent file builder (schema formats 2-4, DESC declared on indexes that a pre-4 format stores ascending, secondary indexes on WITHOUT ROWID tables); there the expected rows are the builder's own content filtered with the reference comparator, and SQLite cross-validates the image (integrity_check + content) for every disagreement and a sample of the agreeing cases.",
         },
         "rule": ("database spec as for C02; 3-12 key picks per database, each applied to every index and eligible primary key: stored row -> key columns -> prefix of length 0..n -> optional mutation of the last column "
                  "(neighbour or arbitrary value). Non-trivial = the result is a proper non-empty subset of the indexed rows, or a non-binary collation decides, or the key was mutated to a neighbour. "
                  "Distinct = fingerprint of the spec; searches are counted separately."),
         "assumptions": ["system libsqlite3 (3.40.1) is the reference"],
         "min_nontrivial": {"quick": 100, "thorough": 2000},
-        "required_classes": ["search:rowid:IndexedSelectEq", "search:without-rowid:IndexedSelectEq", "search:without-rowid:PKSelect", "search:rowid:PKSelect", "search:prefix=0", "search:prefix=2", "search:hits<=10"],
+        "required_classes": ["search:rowid:IndexedSelectEq", "search:without-rowid:IndexedSelectEq", "search:without-rowid:PKSelect", "search:rowid:PKSelect", "search:prefix=0", "search:prefix=2", "search:hits<=10", "builder:schema-format=4", "builder:schema-format=3", "builder:schema-format=2", "builder:legacy-format-with-desc-index"],
         "timeout": {"quick": 400, "thorough": 2400},
         "jobs": [
             job("search", "c02", ["TestC03EqualitySearch"], 200, 2500, 4, 14),
+            job("builder", "c02", ["TestC03Builder"], 700, 12000, 2, 8),
         ],
     },
     "C10": {
